@@ -56,6 +56,8 @@ pub struct WorkerCfg {
     pub current: Option<String>,
     /// generate with the profile of another property (diagnostics)
     pub profile: Option<Prop>,
+    /// file to write the running case to if it exceeds the per-case time limit (then exit 3)
+    pub hang_marker: Option<String>,
 }
 
 pub fn stats_json(st: &Stats) -> Value {
@@ -78,6 +80,50 @@ pub fn stats_json(st: &Stats) -> Value {
         "ops_by_kind": st.by_op,
         "excluded_by_known_finding": st.excluded_known,
     })
+}
+
+/// Watchdog: if one case runs longer than `limit_s`, the process writes `<marker>` (the case that
+/// was running) and exits with status 3. The driver reports that as inconclusive, never as a
+/// violation.
+pub struct Watchdog {
+    pub tick: std::sync::Arc<std::sync::atomic::AtomicU64>,
+    pub current: std::sync::Arc<std::sync::Mutex<String>>,
+}
+
+impl Watchdog {
+    pub fn start(marker: String, limit_s: u64) -> Watchdog {
+        use std::sync::atomic::{AtomicU64, Ordering};
+        let tick = std::sync::Arc::new(AtomicU64::new(0));
+        let current = std::sync::Arc::new(std::sync::Mutex::new(String::new()));
+        let (t2, c2) = (tick.clone(), current.clone());
+        std::thread::spawn(move || {
+            let mut last = u64::MAX;
+            let mut since = std::time::Instant::now();
+            loop {
+                std::thread::sleep(std::time::Duration::from_millis(500));
+                let now = t2.load(Ordering::Relaxed);
+                if now != last {
+                    last = now;
+                    since = std::time::Instant::now();
+                } else if now != 0 && since.elapsed().as_secs() >= limit_s {
+                    let case = c2.lock().map(|g| g.clone()).unwrap_or_default();
+                    let _ = std::fs::write(&marker, case);
+                    std::process::exit(3);
+                }
+            }
+        });
+        Watchdog { tick, current }
+    }
+    pub fn begin(&self, case_json: impl FnOnce() -> String) {
+        if let Ok(mut g) = self.current.lock() {
+            *g = case_json();
+        }
+        self.tick.fetch_add(1, std::sync::atomic::Ordering::Relaxed);
+    }
+}
+
+pub fn case_time_limit(thorough: bool) -> u64 {
+    std::env::var("GV_CASE_LIMIT_S").ok().and_then(|s| s.parse().ok()).unwrap_or(if thorough { 300 } else { 90 })
 }
 
 pub fn worker(cfg: &WorkerCfg) -> Value {
@@ -129,7 +175,11 @@ pub fn worker(cfg: &WorkerCfg) -> Value {
     let big = cfg.thorough;
     let known = cfg.known.clone();
     let current = cfg.current.clone();
+    let wd = cfg.hang_marker.clone().map(|m| Watchdog::start(m, case_time_limit(cfg.thorough)));
     let result = runner.run(&strat, |case| {
+        if let Some(w) = &wd {
+            w.begin(|| serde_json::to_string(&case).unwrap_or_default());
+        }
         if let Some(p) = &current {
             let _ = std::fs::write(p, serde_json::to_string(&case).unwrap_or_default());
         }
